@@ -32,6 +32,8 @@ RULES = [
 
 
 
+ ("app/app.go", "<pkginit>", "package-init-calls-config-dependent-code", "init() calls os.UserHomeDir", "class:startup-configuration",
+  "DefaultNodeHome (CLI default of --home) computed at package initialisation; never read while processing blocks"),
  # ---- node-local configuration flowing into state-machine objects (kind node-local-config): a NEW flow is a finding ----
  ("app/app.go", "NewTeleport", "node-local-config", "crisis.FlagSkipGenesisInvariants -> *", "class:config-non-consensus",
   "crisis AppModule.InitGenesis asserts the registered invariants unless skipped: assert-only (panic = halt), nothing is written"),
